@@ -67,7 +67,10 @@ def seeded(ctx, n, length):
                 steps.append({"op": "finish", "r": r, "how": rng.choice(["return", "return", "panic"])})
             else:
                 rid += 1
-                steps.append({"op": "start", "r": rid, "src": "s%d" % rng.randint(1, nsrc)})
+                st = {"op": "start", "r": rid, "src": "s%d" % rng.randint(1, nsrc)}
+                if rng.random() < 0.08:
+                    st["precancel"] = True      # the request's context is already cancelled when it arrives
+                steps.append(st)
                 running.append(rid)   # rejected ones are ignored by the driver at finish
         out.append({"max": mx, "steps": steps})
     return to_scenarios(out, "rnd", extract=rng.choice(["header", "ip"]))
